@@ -15,6 +15,7 @@ Definition C01_full : Prop :=
   (forall dgss sched, trun (t_init (map (tftp_thread false) dgss)) sched <> TFatal) /\
   (forall dg, cs_handle dg = ROk \/ cs_handle dg = RPanic 1) /\
   (forall segs, adb_handle segs = ROk \/ adb_handle segs = RPanic 2) /\
+  (forall accept_fails, psv_socket accept_fails = ROk) /\
   (forall dg s, snmp_first dg <> Some (RFatal s)) /\
   (forall dg fuel, wf_bytes dg = true -> snmp_first dg = None ->
      Forall (fun L => alloc_verdict L = 0%N) (lib_allocs fuel (snmp_buf dg))) /\
@@ -37,6 +38,21 @@ Proof. exact process_down_iff. Qed.
 (* every goroutine the 24 services start either has no panic site or recovers *)
 Theorem C01_every_goroutine_guarded : forall g, In g goroutines -> unguarded g = false.
 Proof. exact every_goroutine_guarded. Qed.
+
+(* ---- ftp passive data socket: the accept goroutine outside every recover ---- *)
+(* whatever Accept does (a client connects; nobody does within 30 s; the listener is closed
+   because the socket is replaced, the session ends or Handle panicked): exactly one Done *)
+Theorem C01_ftp_passive_socket_never_fatal : forall accept_fails, psv_socket accept_fails = ROk.
+Proof. exact psv_socket_ok. Qed.
+
+Theorem C01_ftp_passive_counter_balanced : forall accept_fails,
+  wg_run 1 (psv_goroutine accept_fails) = Some 0.
+Proof. exact psv_counter. Qed.
+
+(* there is no slack: one more Done at any place of that goroutine is the unrecoverable panic *)
+Theorem C01_ftp_passive_extra_done_is_fatal : forall accept_fails k,
+  wg_run 1 (firstn k (psv_goroutine accept_fails) ++ WDone :: skipn k (psv_goroutine accept_fails)) = None.
+Proof. exact wg_extra_done_panics. Qed.
 
 (* ---- ssh-simulator env / exec ---- *)
 (* from every decoder state the loop ends within avail+1 iterations; more fuel changes nothing *)
@@ -172,6 +188,9 @@ Proof. vm_compute. repeat split; reflexivity. Qed.
 Print Assumptions C01_handle_confines.
 Print Assumptions C01_process_down_only_by_fatal.
 Print Assumptions C01_every_goroutine_guarded.
+Print Assumptions C01_ftp_passive_socket_never_fatal.
+Print Assumptions C01_ftp_passive_counter_balanced.
+Print Assumptions C01_ftp_passive_extra_done_is_fatal.
 Print Assumptions C01_ssh_loop_terminates.
 Print Assumptions C01_ssh_fuel_suffices.
 Print Assumptions C01_ssh_request_never_fatal.
